@@ -120,9 +120,15 @@ def find_from_impl(I, to_ty, from_ty):
     return None
 
 
-def convert(I, st, v, from_ty, to_ty, depth):
+def convert(I, st, v, from_ty, to_ty, depth, t=None):
     """U::from(v: T) — crate-local From impls are inlined, byte containers are identities"""
     if from_ty == to_ty:
+        yield st, v
+        return
+    m = re.fullmatch(r"&(?:'\w+ )?(?:mut )?generic_array::GenericArray<u8, U(\d+)>", to_ty)
+    if m and re.match(r"&(?:'\w+ )?(?:mut )?\[u8\]", from_ty):
+        # generic-array 0.14: `impl From<&[T]> for &GenericArray<T, N>` asserts `slice.len() == N` (a panic site inside the dependency)
+        st.ev('exact-len', I.len_of(st, v), Int(int(m.group(1))), 'From<&[u8]> for &GenericArray', span(t) if t else '')
         yield st, v
         return
     b = find_from_impl(I, to_ty, from_ty)
@@ -149,7 +155,7 @@ def convert(I, st, v, from_ty, to_ty, depth):
 def m_into(I, st, callee, argv, depth, t, dty):
     args = callee.get('args', [])
     if len(args) >= 2:
-        yield from convert(I, st, norm_keep(argv[0]), args[0], args[1], depth)
+        yield from convert(I, st, norm_keep(argv[0]), args[0], args[1], depth, t)
     else:
         yield st, argv[0]
 
@@ -158,7 +164,7 @@ def m_into(I, st, callee, argv, depth, t, dty):
 def m_from(I, st, callee, argv, depth, t, dty):
     args = callee.get('args', [])
     if len(args) >= 2:
-        yield from convert(I, st, norm_keep(argv[0]), args[1], args[0], depth)
+        yield from convert(I, st, norm_keep(argv[0]), args[1], args[0], depth, t)
     else:
         yield st, argv[0]
 
